@@ -157,6 +157,9 @@ func fuzzSpace(w *W, f func(c fuzzCase)) {
 		}
 	}
 
+	// (5e) structured spaces: error recovery in call-like constructs, scripts, inter-referring WINDOWs, statement × tails
+	fuzzSpace2(w, func(input, desc string) { run(input, desc, false) })
+
 	// (5d) well-formed nesting up to ClickHouse's depth limit (inside C03's bound of 1000 levels)
 	type nest struct{ open, mid, close string }
 	nests := []nest{{"(", "1", ")"}, {"f(", "x", ")"}, {"NOT ", "a", ""}, {"- ", "a", ""}, {"-", "1", ""}, {"(SELECT ", "1", ")"}, {"[", "1", "]"}, {"tuple(", "1", ")"},
@@ -183,8 +186,13 @@ func fuzzSpace(w *W, f func(c fuzzCase)) {
 	} else {
 		sizes = []int{1 << 12, 1 << 17}
 	}
+	bombUnits = append(bombUnits, "[", "+", "a,", "((", "[(", "f(") // more single-construct units (array / unary / list / mixed nesting)
 	for _, u := range bombUnits {
-		for _, sz := range sizes {
+		szs := sizes
+		if !w.Thorough() && len(u) == 1 { // the property's bound is 1 MiB: the deepest nests per byte are reached in the quick tier too
+			szs = append(append([]int{}, sizes...), 1<<20)
+		}
+		for _, sz := range szs {
 			for _, pre := range []string{"SELECT ", ""} {
 				n := (sz - len(pre)) / len(u)
 				run(pre+strings.Repeat(u, n), fmt.Sprintf("bomb:%q*%d", u, n), true)
